@@ -42,6 +42,10 @@ RawPayloads ==
      p_it4  |-> Mut(Tx("iA1", "bob", 1, "none"), [kind |-> "setinner", off |-> 0, bytes |-> W(4)]),
      p_it5  |-> Mut(Tx("iA1", "bob", 1, "none"), [kind |-> "setinner", off |-> 0, bytes |-> W(5)]),
      p_ot5  |-> Mut(Tx("iA1", "bob", 1, "none"), [kind |-> "setouter", off |-> 0, bytes |-> W(5)]),
+     \* type words whose LOW byte is a supported tag but whose upper bytes are not zero (260 = 0x0104, 256 = 0x0100)
+     p_o260 |-> Mut(Tx("iA1", "bob", 1, "none"), [kind |-> "setouter", off |-> 0, bytes |-> W(260)]),
+     p_i256 |-> Mut(Tx("iA1", "bob", 1, "none"), [kind |-> "setinner", off |-> 0, bytes |-> W(256)]),
+     p_ihi  |-> Mut(Tx("iA1", "bob", 1, "none"), [kind |-> "setinner", off |-> 0, bytes |-> <<128>> \o A!Zeros(31)]),
      p_ont  |-> [Tx("iA1", "bob", 1, "none") EXCEPT !.origin = "avalanche"],
      p_unk  |-> Tx("r9", "bob", 1, "none"),
      p_rcp  |-> Tx("iA1", "garbage", 1, "none"),  p_rcpr |-> Tx("iA1", "garbageRaw", 1, "none"),
